@@ -4,3 +4,4 @@ import EdxmlModel.Hash.Sha
 import EdxmlModel.Event.Event
 import EdxmlModel.Event.Hash
 import EdxmlModel.Event.Merge
+import EdxmlModel.Stream.Parser
